@@ -16,6 +16,7 @@ import (
 	"os"
 	"path/filepath"
 	"runtime"
+	"runtime/pprof" // TEMP-PROF
 	"sort"
 	"strings"
 	"sync"
@@ -968,6 +969,11 @@ func (k *checker) compileTable(specs []cfgSpec) {
 
 func TestCheck(t *testing.T) {
 	r := runner.Start("C11", "exploration")
+	if pf := os.Getenv("C11_PROF"); pf != "" { // TEMP-PROF
+		f, _ := os.Create(pf) // TEMP-PROF
+		pprof.StartCPUProfile(f) // TEMP-PROF
+		defer pprof.StopCPUProfile() // TEMP-PROF
+	} // TEMP-PROF
 	k := &checker{r: r, stats: map[string]int64{}, once: map[string]bool{}, deadline: r.Deadline(60*time.Second, 10*time.Minute)}
 
 	if p := runner.ReplayPath(); p != "" {
@@ -1082,6 +1088,7 @@ func TestCheck(t *testing.T) {
 	r.Assume("an authorised caller of endpoint A presenting a lease id that belongs to a message of route B is not part of this table (lease ids are capabilities; covered by the lease-fencing property C04)")
 	r.Assume("HTTP requests are parsed by net/http's http.ReadRequest, as the production http.Server would; the reference judges the Authorization values as delivered to the handler. TLS/mTLS listeners are not exercised (tokens are independent of the transport credentials)")
 	r.Assume("state = MemoryStore (fixed clock, no retention) + config file + management labels; runtime metrics counters are not queue state")
+	pprof.StopCPUProfile() // TEMP-PROF
 	r.Finish()
 }
 
